@@ -26,6 +26,7 @@ type NativeResult struct {
 	Obs       []string `json:"obs"`
 	Exhausted bool     `json:"exhausted"`
 	Unused    int      `json:"unused"`
+	ElapsedMs int64    `json:"elapsed_ms"`
 }
 
 // HarnessFiles returns the overlay (virtual path -> contents) that injects
